@@ -109,6 +109,21 @@ def collectors(chk, rng, n):
             if not (good and ep_ok):
                 chk.fail("C01:sample_trajectories:kept-transition", "the episode dataset differs from the environment's transitions (or its episode split)",
                          {"case": case, "episode_lengths": [len(ep) for ep in ds.episodes], "env_episode_lengths": _episode_lengths(steps)})
+            else:
+                # the arrays handed to the learners (REINFORCE / actor-critic): row k is still environment step k, also across episode ends
+                okp, prep = chk.impl_call("C01:prepare_policy_gradient_dataset:raised", case, ds.prepare_policy_gradient_dataset, env.action_space, 0.5)
+                if okp:
+                    O, A, NO = (np.asarray(prep[j], dtype=np.float32) for j in range(3))
+                    exp_o, exp_no = np.stack([e[1] for e in steps]), np.stack([e[4] for e in steps])
+                    exp_a = np.asarray([int(np.asarray(e[2])) for e in steps])
+                    if O.shape[0] != len(steps) or not (np.array_equal(O.reshape(exp_o.shape), exp_o) and np.array_equal(NO.reshape(exp_no.shape), exp_no)
+                                                        and np.array_equal(A.reshape(-1).astype(int), exp_a)):
+                        chk.fail("C01:prepare_policy_gradient_dataset:kept-transition", "the observation / action / successor arrays prepared for learning differ from the "
+                                 "environment's steps (a successor must be what that step returned, not the next episode's reset observation)",
+                                 {"case": case, "next_observations": NO.tolist(), "environment_next_observations": exp_no.tolist()})
+                    chk.count("prepared_datasets_checked")
+                    if len(ds.episodes) > 1:
+                        chk.count("prepared_datasets_with_several_episodes")
         # --- A2C collect_trajectories (vector env, NEXT_STEP autoreset)
         N, T = int(rng.integers(1, 4)), int(rng.integers(1, 6))
         scripts = [[(int(rng.choice([1, 2, 3, 5])), str(rng.choice(["term", "trunc"]))) for _ in range(3)] for _ in range(N)]
